@@ -31,6 +31,8 @@ func (c c02) Generate(seed uint64, tier string, idx int) *core.Plan {
 	p.Cfg["spare"] = int64(r.Pick([]int{0, 7, 64}))
 	p.Cfg["segmode"] = int64(r.Pick([]int{0, 2}))
 	p.Cfg["jitter"] = int64(r.Pick([]int{0, 3_000_000}))
+	p.Cfg["bufreuse"] = int64(r.Intn(2))
+	p.Cfg["scramble"] = int64(r.Intn(256))
 	// one token type per run (keeps runs short and diverse); two issuers of it
 	t := []int{1, 2, 3, 5}[idx%4]
 	p.Cfg["type"] = int64(t)
